@@ -345,8 +345,11 @@ func (bc *backendConn) playReader() {
 // EntityID is unique per backend connection in a world.
 func (bc *backendConn) EntityID() int { return 1000*(1+bc.b.index) + bc.idx }
 
-// Live reports whether the connection is joined and has not seen EOF.
-func (bc *backendConn) Live() bool { return bc.Joined && !bc.EOFSeen && bc.Phase == "play" }
+// Live reports whether the connection is joined and still open: the backend has not seen EOF
+// and the proxy has not closed its end (a stalled backend never reads the EOF).
+func (bc *backendConn) Live() bool {
+	return bc.Joined && !bc.EOFSeen && bc.Phase == "play" && !bc.conn.PeerGone()
+}
 
 // Kick disconnects the player from this backend while in play.
 func (bc *backendConn) Kick(reason string) {
